@@ -121,3 +121,62 @@ func ruleActiveResume(c *Ctx) {
 	c.Sites += n
 	c.minInstances("call sites of such installers", n, 1)
 }
+
+// R-META-THROUGH (C18 C08 C10): in sparse mode a bucket's key range lives in DB.bucketMetas and in
+// meta/bucket/<bucket>.meta; Open, Backup (a hot copy of the directory) and a crash all see only the file.
+// On the commit path every store into DB.bucketMetas is therefore written through in the same function:
+// a file write lies on every path from the function's entry to the store, or on every path from the store to
+// a successful return. A cache that is flushed later (at rotation, at Close) leaves committed state that only
+// memory knows when the lock is released.
+func ruleMetaThrough(c *Ctx) {
+	commit := c.P.MustFunc("(*Tx).Commit")
+	n := 0
+	isFileWrite := func(in ssa.Instruction) bool {
+		cc := callOf(in)
+		if cc == nil {
+			return false
+		}
+		if _, isDefer := in.(*ssa.Defer); isDefer {
+			return false
+		}
+		if e := fsEffectOf(cc); e != nil && e.kind == "write" {
+			return true
+		}
+		// a module helper all of whose cone contains a file write and that is not the cache update itself
+		if cal := cc.StaticCallee(); cal != nil && c.P.inModule(cal) && cal.Blocks != nil {
+			for _, s := range fsSitesIn(c.P, cal) {
+				if s.eff.kind == "write" {
+					return true
+				}
+			}
+		}
+		return false
+	}
+	for _, f := range c.P.ModCone(commit) {
+		if f.Pkg != c.P.Main {
+			continue
+		}
+		k := 0
+		instrs(f, func(in ssa.Instruction) {
+			mu, ok := in.(*ssa.MapUpdate)
+			if !ok || !isFieldLoad(mu.Map, "DB", "bucketMetas") {
+				return
+			}
+			n++
+			k++
+			c.touch(f)
+			ei := errResultIndex(f)
+			// (a) a write on every path entry -> store
+			before := findPath(f, nil, func(x ssa.Instruction) bool { return x == in }, isFileWrite, nil)
+			// (b) a write on every path store -> successful return
+			after := findPath(f, in, func(x ssa.Instruction) bool {
+				r, ok := x.(*ssa.Return)
+				return ok && (ei < 0 || classifyRetOperand(r, ei) != retNonNil)
+			}, isFileWrite, nil)
+			c.check(before == nil || after == nil, fnName(f), fmt.Sprintf("store #%d into DB.bucketMetas is written through to the bucket meta file", k), c.P.ipos(in), "",
+				"the cached key range of the bucket changes on the commit path while no write of the bucket meta file lies on every path before the store or between the store and the successful return: when the transaction releases the lock the new range exists only in memory, so a Backup taken now (and a crash) sees the old or no meta file - sparse-mode GetAll on the copy misses the keys outside the old range or reports the bucket missing", c.witnessOf(before)...)
+		})
+	}
+	c.Sites += n
+	c.minInstances("stores into DB.bucketMetas on the commit path", n, 1)
+}
